@@ -176,3 +176,40 @@ func H_rendererrKinds(depth, kind int) {
 	verifAssert(fp.File() == "f0.soy", "C19: render error does not name the file of the entry template")
 	verifAssert(fp.Line() == 4+k, "C19: render error does not point at the line of the outermost failing command")
 }
+
+// c19AttrBodies: commands whose failing expression stands inside a quoted attribute (parsed by a
+// nested parser) or in the expression of a {css} command, beside the plain spellings.
+var c19AttrBodies = []string{
+	"{call b.ok data=\"$nope.x\" /}",
+	"{call b.ok data=\"$nope.x\"}{param q: 1 /}{/call}",
+	"{call b.ok}{param key=\"p\" value=\"$nope.x\" /}{/call}",
+	"{call b.ok}{param p: $nope.x /}{/call}",
+	"{call b.ok}{param q: 1 /}{param key=\"p\" value=\"$one % 0\" /}{/call}",
+	"{css $nope.x, c}",
+	"{call name=\"b.ok\" data=\"$nope.x\" /}",
+}
+
+// H_rendererrAttr: the failing expression stands in an attribute of the command on the k-th body
+// line (chosen symbolically) of the entry template itself: the error names the entry file and that line.
+func H_rendererrAttr(kind int) {
+	k := verifChoose(3)
+	src := "{namespace a}\n/** @param? x */\n{template .t}\n{let $one: 1 /}\n"
+	for i := 0; i < 3; i++ {
+		if i == k {
+			src += "  t" + c19AttrBodies[kind] + "\n"
+		} else {
+			src += "  ok{$x}{call b.ok data=\"['p': 1]\" /}\n"
+		}
+	}
+	src += "{/template}\n"
+	other := "{namespace b}\n/** @param? p @param? q */\n{template .ok}\n{$p ?: ''}{$q ?: ''}\n{/template}\n"
+	tofu, cerr := verifCompileNoCheck(src, other)
+	verifAssert(cerr == nil, "harness: bundle does not compile")
+	_, err := verifRender(tofu, "a.t", data.Map{"x": data.Null{}})
+	verifAssert(err != nil, "harness: render did not fail")
+	fp := errortypes.ToErrFilePos(err)
+	verifAssert(fp != nil, "C19: render error carries no file position")
+	verifObserveInt("line", fp.Line())
+	verifAssert(fp.File() == "f0.soy", "C19: render error does not name the file of the entry template")
+	verifAssert(fp.Line() == 5+k, "C19: render error does not point at the line of the failing command")
+}
